@@ -27,8 +27,11 @@ def adim(c):
 
 
 def amerge(a, b):
-    """the documented law: the lower-dimensional anchor wins; equal dimension needs equal ids.
+    """the documented law: the lower-dimensional anchor wins; equal dimension needs equal ids; an undefined anchor merged
+    with a defined one gives the defined one (`merge_incomplete`), two undefined ones cannot be merged (`merge_from_none`).
     returns (ok, value)"""
+    if a is None or b is None:
+        return (a is not None or b is not None), (a if b is None else b)
     if adim(a) < adim(b):
         return True, a
     if adim(b) < adim(a):
@@ -167,6 +170,18 @@ class Mesh:
                     m = max(m, c.denominator.bit_length() - 1)
         return m
 
+    def stale_anchors(self):
+        """[(kind, id)]: anchors stored under identifiers that are not (no longer) the identifier of a vertex / edge / face of the
+        mesh — left behind by finding D15a (the face anchor stays under the old identifier); such a slot becomes visible again
+        as soon as a cell takes that identifier"""
+        out = []
+        ids = {"a6": {self.vid(d) for d in self.in_use}, "a7": {self.eid(d) for d in self.in_use},
+               "a8": {self.fid(d) for d in self.in_use}}
+        for k, kind in (("a6", "v"), ("a7", "e"), ("a8", "f")):
+            if self.anch[k]:
+                out += [(kind, i) for i, x in enumerate(self.anch[k]) if x is not None and i not in ids[k]]
+        return out
+
     def fully_anchored(self):
         """every vertex / edge / face of the mesh carries an anchor (when the storages exist)"""
         if not any(self.anch.values()):
@@ -216,8 +231,16 @@ def in_guard(m, op):
     e, nds = op["e"], op["nds"]
     if not (0 < e < m.n) or m.u[e] or e in m.free:
         return False
-    if not m.is_triangle_mesh() or not m.embedded() or not m.fully_anchored():
+    if not m.is_triangle_mesh() or not m.embedded():
         return False
+    # anchors: any subset of the three storages, any subset of the cells anchored (`with and without anchor attributes`); the
+    # clauses compare what is there (an undefined anchor stays undefined).  Only the collapse NEEDS anchors: with a VertexAnchor
+    # storage it reads the anchors of the two end points and of the edge, and cannot succeed without them (it retries)
+    if m.stale_anchors():
+        return False      # garbage left in the anchor storages by an earlier call (D15a): not a state the statement speaks about
+    if op["kind"] == "collapse" and m.anch["a6"]:
+        if m.anchor_v(e) is None or m.anchor_v(m.b[1][e]) is None or m.anchor_e(e) is None:
+            return False
     if len(set(nds)) != len(nds) or any(not (0 < x < m.n) or x not in m.free for x in nds):
         return False
     r = m.b[2][e]
